@@ -41,6 +41,9 @@ def refine(prog, idx, arrays, phase, exc_type) -> str:
         return f"nblocks={nb}"
     if any(getattr(a, "size", 1) == 0 for a in args):
         if len(args) >= 2:
+            z = [a for a in args if getattr(a, "size", 1) == 0]
+            if len({tuple(a.chunks) for a in z if hasattr(a, "chunks")}) > 1 or len({tuple(a.chunks) for a in args if hasattr(a, "chunks")}) > 1:
+                return "@multi-operand:size0-operands-different-chunks"
             return "@multi-operand:size0-operands"
         return "size0-operand"
     if any(getattr(a, "ndim", 1) == 0 for a in args):
